@@ -2,7 +2,7 @@
 import tables as T
 from cfg import cfg_of
 from flow import Taint, callee_matches, op_local, prep
-from rules import CallGuard, CallSink, CmpGuard, RetSink, AggSink, BlockSink, pat_match, PL
+from rules import CallGuard, CallSink, CmpGuard, RetSink, AggSink, BlockSink, pat_match, PL, compare_sites
 from rules import P as Pm
 from props.C03 import PV, KIND, PUT, STORE_FNS, VKE, param_seeds, field_read_seeds
 from props.C12 import chunk_rules
@@ -50,6 +50,28 @@ def call_results(pats):
                 out.add(t["d"][0])
         return out
     return f
+
+
+def tx_key_guard(form):
+    # closure form: record_key is captured (environment = local 1); loop form: it is parameter 2 of the async fn
+    return CmpGuard(call_results([TRK]), (lambda b: {1}) if form == "closure" else Pm(2), "Eq", "transaction's own key == record_key", through="all")
+
+
+def per_element_key_check(R, F, tx, prefix="C04.key.tx"):
+    """Every transaction persisted by validate_merge_and_store_transactions passed `its own key == record_key`,
+    and what is persisted derives from the filtered collection only."""
+    prep(tx)
+    form, kept = R.per_element_keep(prefix + ".cmp", tx, tx_key_guard, "a transaction is kept only if its own key equals the presented key")
+    if form is None:
+        return False, kept
+    vals = agg_field_operands(tx, "libp2p_kad::record::Record", "value")
+    ta = Taint(tx, through="all")
+    inp = PL(tx, 1)
+    flows = bool(vals) and bool(kept) and all(op_local(o) in ta.closure(inp) and op_local(o) not in ta.closure(inp, stop_at=kept) for _, _, o in vals)
+    if not flows:
+        R.viol(prefix + ".filter", "unfiltered", "a presented transaction can reach the persisted record without passing the key filter", tx, tx.lines[0])
+    R.inst(prefix + ".filter", "K6 flows-to (cut)", "persisted transactions derive from the input only through the key-filtered collection", len(vals), flows, {"form": form})
+    return form in ("closure", "loop") and flows, kept
 
 
 def record_key_reads(body):
@@ -125,30 +147,9 @@ def run(R):
         R.gate("C04.key.pad.cmp", pad, CallSink(PUT),
                [[CmpGuard(call_results([TRK]), Pm(2), "Eq", "scratchpad_key == record_key")]],
                descr="scratchpad store cut by content-derived key == presented key")
-    txf = R.body("C04.key.tx.cmp", STORE["tx"] + "::{closure#0}::{closure#0}")
-    if txf is not None:
-        R.gate("C04.key.tx.cmp", txf, RetSink("true"),
-               [[CmpGuard(call_results([TRK]), lambda b: {1}, "Eq", "transaction's own key == record_key", through="all")]],
-               descr="transaction filter keeps an element only if its own key equals the presented key")
-        tx = R.body("C04.key.tx.filter", STORE["tx"] + "::{closure#0}")
-        if tx is not None:
-            # the serialised vector derives from the filter over that closure
-            prep(tx)
-            filt = [b for b in tx.blocks if b["term"]["k"] == "call" and callee_matches(b["term"], ["core::iter::traits::iterator::Iterator::filter"])]
-            first = None
-            for b in filt:
-                for s in tx.blocks:
-                    pass
-            ta = Taint(tx, through="all")
-            srcs = set()
-            for b in filt:
-                # closure argument built from {closure#0}::{closure#0}
-                srcs.add(b["term"]["d"][0])
-            vals = agg_field_operands(tx, "libp2p_kad::record::Record", "value")
-            ok = bool(filt) and all(op_local(o) in ta.closure(srcs) for _, _, o in vals) and bool(vals)
-            if not ok:
-                R.viol("C04.key.tx.filter", "unfiltered", "the transactions persisted do not derive from the key-filtered iterator", tx, tx.lines[0])
-            R.inst("C04.key.tx.filter", "K6 flows-to", "persisted transactions derive from the key-filtered input", len(filt), ok)
+    tx = R.body("C04.key.tx.filter", STORE["tx"] + "::{closure#0}")
+    if tx is not None:
+        per_element_key_check(R, F, tx)
 
     # (3a) validate_key_and_existence
     vke = R.body("C04.vke", VKE + "::{closure#0}")
